@@ -85,7 +85,16 @@ def coq_make(targets, log, timeout=1500):
 def gen_coq_project():
     """_CoqProject = concatenation of project.d/*.txt; Makefile regenerated when it changes."""
     import glob
-    content = "".join(open(f).read() for f in sorted(glob.glob(os.path.join(COQ, "project.d", "*.txt"))))
+    lines = []
+    for f in sorted(glob.glob(os.path.join(COQ, "project.d", "*.txt"))):
+        for ln in open(f).read().splitlines():
+            t = ln.strip()
+            # a listed .v file that does not exist (yet) must not break everybody else's build
+            if t.endswith(".v") and not os.path.exists(os.path.join(COQ, t)) and t != "Extracted/Facts.v":
+                continue
+            if t:
+                lines.append(t)
+    content = "\n".join(lines) + "\n"
     cp = os.path.join(COQ, "_CoqProject")
     old = open(cp).read() if os.path.exists(cp) else None
     if old != content or not os.path.exists(os.path.join(COQ, "Makefile")):
@@ -244,6 +253,11 @@ def main():
             res, cout = (None, "")
             if rc == 0:
                 res, cout = eval_cases(od)
+                for _ in range(2):
+                    if res is None and "inconsistent assumptions" in cout:
+                        # another check rebuilt a shared .vo between our make and this coqc: rebuild and retry
+                        coq_make(prop.get("support", []) + prop.get("run_targets", []), log)
+                        res, cout = eval_cases(od)
             return (j, rc, out, dt, res, cout)
 
         with ThreadPoolExecutor(max_workers=int(os.environ.get("VERIF_JOBS", "8"))) as ex:
